@@ -1184,6 +1184,261 @@ def gen_multistage(repo):
 
 GENERATORS["MultistageGen"] = gen_multistage
 
+# ---------------------------------------------------------------------------------------------------------------------------
+# hrevolve.py: _convert_action(action) -> a function of the operation's type name and index (Proofs/ConvKinds.v)
+OKINDS = ["Forward", "Backward", "Read", "Write", "Discard", "Write_Forward", "Discard_Forward", "Write_Forward_memory", "Discard_Forward_memory",
+          "Read_disk", "Write_disk", "Discard_disk", "Read_memory", "Write_memory", "Discard_memory"]
+
+
+def gen_convert(repo):
+    tree = ast.parse(open(os.path.join(repo, "checkpoint_schedules", "hrevolve.py")).read())
+    f = None
+    for n in tree.body:
+        if isinstance(n, ast.FunctionDef) and n.name == "_convert_action":
+            f = n
+    if f is None or [a.arg for a in f.args.args] != ["action"] or f.decorator_list:
+        raise Untranslatable("_convert_action(action)")
+    body = _strip_doc(f.body)
+    if len(body) != 3 or not (isinstance(body[0], ast.Assign) and ast.unparse(body[0]) == "cp_action = action.type") or not isinstance(body[1], ast.If) \
+            or ast.unparse(body[2]) != "return (cp_action, (n_0, n_1, storage))":
+        raise Untranslatable("_convert_action: `cp_action = action.type`, one if/elif chain, `return cp_action, (n_0, n_1, storage)`")
+
+    def test(t):
+        if isinstance(t, ast.Compare) and len(t.ops) == 1 and isinstance(t.left, ast.Name) and t.left.id == "cp_action":
+            c = t.comparators[0]
+            if isinstance(t.ops[0], ast.Eq) and isinstance(c, ast.Constant) and c.value in OKINDS:
+                return "okind_eqb cp_action K%s" % c.value
+            if isinstance(t.ops[0], ast.In) and isinstance(c, (ast.List, ast.Tuple, ast.Set)) and c.elts and all(isinstance(x, ast.Constant) and x.value in OKINDS for x in c.elts):
+                return "(" + " || ".join("okind_eqb cp_action K%s" % x.value for x in c.elts) + ")"
+        raise Untranslatable("_convert_action test " + ast.dump(t)[:80])
+
+    def dict_lookup(d, key):
+        """{k: StorageType.X, ...}[key] -> res storage"""
+        if not (isinstance(d, ast.Dict) and d.keys and all(isinstance(k, ast.Constant) and isinstance(k.value, int) for k in d.keys) and all(_is_st_const(v) for v in d.values)):
+            raise Untranslatable("dictionary literal")
+        if key.lstrip("-").isdigit():            # a literal key: looked up now
+            hit = [v for k, v in zip(d.keys, d.values) if k.value == int(key)]
+            return "(Ok %s)" % hit[-1].attr if hit else "(Err KeyError)"
+        out = "Err KeyError"
+        for k, v in reversed(list(zip(d.keys, d.values))):
+            out = "if %s =? %d then Ok %s else %s" % (key, k.value, v.attr, out)
+        return "(%s)" % out
+
+    def branch(stmts, env):
+        """straight-line code over n_0, n_1 (option Z), storage (an int, then a StorageType or None) -> Coq term of type res (...)"""
+        if not stmts:
+            for v in ("n_0", "n_1", "storage"):
+                if v not in env:
+                    raise Untranslatable("_convert_action: %s unbound at the return" % v)
+            if env["storage"][0] == "int":
+                raise Untranslatable("_convert_action returns an integer storage")
+            return "Ok (cp_action, (%s, %s, %s))" % (env["n_0"][1], env["n_1"][1], env["storage"][1])
+        s, rest = stmts[0], stmts[1:]
+        if isinstance(s, ast.If) and not s.orelse and len(s.body) == 1 and isinstance(s.body[0], ast.Raise) and isinstance(s.test, ast.Compare) and len(s.test.ops) == 1 \
+                and type(s.test.ops[0]) in CMP and all(isinstance(x, ast.Name) and x.id in ("n_0", "n_1") for x in (s.test.left, s.test.comparators[0])):
+            exc = s.body[0].exc.func.id if isinstance(s.body[0].exc, ast.Call) else getattr(s.body[0].exc, "id", None)
+            if exc not in ("RuntimeError",):
+                raise Untranslatable("exception %s" % exc)
+            val = lambda x: env[x.id][1] if env[x.id][0] == "int" else env[x.id][2]  # noqa
+            return "if %s %s %s then Err %s else %s" % (val(s.test.left), CMP[type(s.test.ops[0])], val(s.test.comparators[0]), exc, branch(rest, env))
+        if isinstance(s, ast.Assign) and len(s.targets) == 1:
+            t, v = s.targets[0], s.value
+            is_index = isinstance(v, ast.Attribute) and isinstance(v.value, ast.Name) and v.value.id == "action" and v.attr == "index"
+            if isinstance(t, ast.Tuple) and len(t.elts) == 2 and all(isinstance(x, ast.Name) for x in t.elts) and is_index:
+                a, b = t.elts[0].id, t.elts[1].id
+                e2 = dict(env)
+                for nm, var in ((a, "x0"), (b, "x1")):
+                    if nm == "n_0":
+                        e2["n_0"] = ("int", var)
+                    elif nm == "n_1":
+                        e2["n_1"] = ("optint", "(Some %s)" % var, var)
+                    elif nm == "storage":
+                        e2["storage"] = ("int", var)
+                    elif nm != "_":
+                        raise Untranslatable("unpacking into %s" % nm)
+                return "unpack2 index (fun x0 x1 => %s)" % branch(rest, e2)
+            if isinstance(t, ast.Name) and t.id == "n_0" and is_index:
+                e2 = dict(env); e2["n_0"] = ("int", "x0")
+                return "unpack1 index (fun x0 => %s)" % branch(rest, e2)
+            if isinstance(t, ast.Name) and t.id in ("n_1", "storage") and isinstance(v, ast.Constant) and v.value is None:
+                e2 = dict(env); e2[t.id] = ("optint", "None", None) if t.id == "n_1" else ("st", "None")
+                return branch(rest, e2)
+            if isinstance(t, ast.Name) and t.id == "storage" and isinstance(v, ast.Constant) and isinstance(v.value, int) and not isinstance(v.value, bool):
+                e2 = dict(env); e2["storage"] = ("int", str(v.value))
+                return branch(rest, e2)
+            if isinstance(t, ast.Name) and t.id == "storage" and isinstance(v, ast.Subscript):
+                k = v.slice
+                if isinstance(k, ast.Constant) and isinstance(k.value, int):
+                    key = str(k.value)
+                elif isinstance(k, ast.Name) and k.id == "storage" and env.get("storage", ("",))[0] == "int":
+                    key = env["storage"][1]
+                else:
+                    raise Untranslatable("dictionary key " + ast.dump(k)[:60])
+                e2 = dict(env); e2["storage"] = ("st", "(Some sg)")
+                return "do sg <- %s; %s" % (dict_lookup(v.value, key), branch(rest, e2))
+        raise Untranslatable("_convert_action statement " + ast.dump(s)[:100])
+
+    def chain(node):
+        t = "if %s then %s else " % (test(node.test), branch(node.body, {}))
+        if len(node.orelse) == 1 and isinstance(node.orelse[0], ast.If):
+            return t + chain(node.orelse[0])
+        if len(node.orelse) == 1 and isinstance(node.orelse[0], ast.Raise) and getattr(node.orelse[0].exc, "id", None) == "InvalidRevolverAction":
+            return t + "Err InvalidRevolverAction"
+        raise Untranslatable("_convert_action: the chain does not end in `raise InvalidRevolverAction`")
+    return "\n".join(["(* GENERATED by harness/translate.py from checkpoint_schedules/hrevolve.py (_convert_action) -- do not edit *)",
+                      "From Coq Require Import ZArith List Bool.", "From CS Require Import Actions Ops RevConv ConvKinds.", "Open Scope Z_scope.", "",
+                      "Definition convert_action_gen (cp_action : okind) (index : oindex) : res (okind * (Z * option Z * option storage)) :=",
+                      "  %s." % chain(body[1]),
+                      "Lemma convert_action_gen_is_model : forall o, convert_action_gen (kind_of o) (index_of o) = convert_spec o.",
+                      "Proof. intros o; destruct o; cbv - [Z.leb Z.eqb]; repeat match goal with |- context [if ?x then _ else _] => destruct x end; reflexivity. Qed.", ""]) + "\n"
+
+
+GENERATORS["ConvertGen"] = gen_convert
+
+# ---------------------------------------------------------------------------------------------------------------------------
+# mixed.py: mixed_step_memoization behind cache_step -> a fuelled recursion in the shape of Proofs/MemoGenSpec.v
+STEPK = {"FORWARD_REVERSE": "KFR", "WRITE_ADJ_DEPS": "KAdj", "WRITE_ICS": "KIcs", "FORWARD": "KForward", "NONE": "KNone"}
+CACHE_STEP = ("fn", "_cache = {}\n@functools.wraps(fn)\ndef wrapped_fn(n, s):\n    s = min(s, n - 1)\n    if (n, s) not in _cache:\n        _cache[n, s] = fn(n, s)\n    return _cache[n, s]\nreturn wrapped_fn")
+
+
+class MemoTr:
+    def __init__(self, fname, self_gen):
+        self.fname, self.self_gen = fname, self_gen
+
+    def pure(self, e, env):
+        """integer expression without calls"""
+        if isinstance(e, ast.Constant) and isinstance(e.value, int) and not isinstance(e.value, bool):
+            return str(e.value)
+        if isinstance(e, ast.Name) and e.id in env:
+            return env[e.id]
+        if isinstance(e, ast.BinOp) and type(e.op) in BIN:
+            return "(%s %s %s)" % (self.pure(e.left, env), BIN[type(e.op)], self.pure(e.right, env))
+        if isinstance(e, ast.Call) and isinstance(e.func, ast.Name) and e.func.id in ("min", "max") and len(e.args) == 2 and not e.keywords:
+            return "(Z.%s %s %s)" % (e.func.id, self.pure(e.args[0], env), self.pure(e.args[1], env))
+        if isinstance(e, ast.Subscript) and isinstance(e.value, ast.Name) and e.value.id in env and isinstance(e.slice, ast.Constant) and e.slice.value == 2:
+            return "cost_of %s" % env[e.value.id]
+        raise Untranslatable("expression " + ast.dump(e)[:80])
+
+    def monadic(self, e, env):
+        """an integer expression whose leaves may be self(a, b)[2]: the calls are bound left to right, then the value is returned"""
+        calls = []
+
+        def go(x):
+            if isinstance(x, ast.Subscript) and isinstance(x.value, ast.Call) and isinstance(x.value.func, ast.Name) and x.value.func.id == self.fname \
+                    and len(x.value.args) == 2 and not x.value.keywords and isinstance(x.slice, ast.Constant) and x.slice.value == 2:
+                v = "xy"[len(calls)] if len(calls) < 2 else "v%d" % len(calls)
+                calls.append((v, self.pure(x.value.args[0], env), self.pure(x.value.args[1], env)))
+                return "cost_of %s" % v
+            if isinstance(x, ast.BinOp) and type(x.op) in BIN:
+                l = go(x.left)
+                r = go(x.right)
+                return "%s %s %s" % (l, BIN[type(x.op)], r) if isinstance(x.op, (ast.Add,)) else "(%s %s %s)" % (l, BIN[type(x.op)], r)
+            return self.pure(x, env)
+        val = go(e)
+        out = "Ok (%s)" % val
+        for v, a, b in reversed(calls):
+            out = "do %s <- %s f %s %s; %s" % (v, self.self_gen, a, b, out)
+        return "(%s)" % out
+
+    def tup(self, e, env):
+        if isinstance(e, ast.Tuple) and len(e.elts) == 3 and isinstance(e.elts[0], ast.Attribute) and isinstance(e.elts[0].value, ast.Name) \
+                and e.elts[0].value.id == "StepType" and e.elts[0].attr in STEPK:
+            return "(%s, %s, %s)" % (STEPK[e.elts[0].attr], self.pure(e.elts[1], env), self.pure(e.elts[2], env))
+        raise Untranslatable("tuple " + ast.dump(e)[:80])
+
+    def cond(self, e, env):
+        if isinstance(e, ast.Compare) and len(e.ops) == 1 and type(e.ops[0]) in CMP:
+            return "%s %s %s" % (self.pure(e.left, env), CMP[type(e.ops[0])], self.pure(e.comparators[0], env))
+        if isinstance(e, ast.BoolOp) and isinstance(e.op, ast.Or) and len(e.values) == 2:
+            return "(%s) || (%s)" % (self.cond(e.values[0], env), self.cond(e.values[1], env))
+        raise Untranslatable("condition " + ast.dump(e)[:80])
+
+    def is_none_test(self, e, var):
+        return isinstance(e, ast.Compare) and len(e.ops) == 1 and isinstance(e.ops[0], ast.Is) and isinstance(e.left, ast.Name) and e.left.id == var \
+            and isinstance(e.comparators[0], ast.Constant) and e.comparators[0].value is None
+
+    def block(self, stmts, env, best=None):
+        """best: name of the optional running-best variable once `m = None` has been seen (then an option), or (name,) once unwrapped"""
+        if not stmts:
+            raise Untranslatable("control reaches the end of the function")
+        s, rest = stmts[0], stmts[1:]
+        if isinstance(s, ast.If) and len(s.body) == 1 and isinstance(s.body[0], ast.Raise) and not s.orelse:
+            exc = s.body[0].exc.func.id if isinstance(s.body[0].exc, ast.Call) else None
+            if exc not in EXN:
+                raise Untranslatable("exception %s" % exc)
+            if best and isinstance(best, str) and self.is_none_test(s.test, best):
+                e2 = dict(env)
+                return "match %s with None => Err %s | Some %s =>\n  %s end" % (env[best], exc, env[best], self.block(rest, e2, (best,)))
+            return "if %s then Err %s else\n  %s" % (self.cond(s.test, env), exc, self.block(rest, env, best))
+        if isinstance(s, ast.If) and len(s.body) == 1 and isinstance(s.body[0], ast.Return):
+            els = s.orelse if s.orelse else rest
+            if s.orelse and rest:
+                raise Untranslatable("statements after an if/else that returns")
+            return "if %s then Ok %s else\n  %s" % (self.cond(s.test, env), self.tup(s.body[0].value, env), self.block(els, env, best))
+        if isinstance(s, ast.Assign) and len(s.targets) == 1 and isinstance(s.targets[0], ast.Name) and isinstance(s.value, ast.Constant) and s.value.value is None and best is None:
+            e2 = dict(env); e2[s.targets[0].id] = s.targets[0].id
+            b = s.targets[0].id
+            # the loop must follow
+            if not rest or not isinstance(rest[0], ast.For):
+                raise Untranslatable("`%s = None` is not followed by the loop" % b)
+            lp = rest[0]
+            it = lp.iter
+            if not (isinstance(lp.target, ast.Name) and isinstance(it, ast.Call) and isinstance(it.func, ast.Name) and it.func.id == "range" and len(it.args) == 2 and not lp.orelse):
+                raise Untranslatable("loop header")
+            iv = lp.target.id
+            lo, hi = self.pure(it.args[0], env), self.pure(it.args[1], env)
+            lb = _strip_doc(lp.body)
+            if len(lb) != 2 or not (isinstance(lb[0], ast.Assign) and isinstance(lb[0].targets[0], ast.Name)) or not isinstance(lb[1], ast.If) or lb[1].orelse \
+                    or len(lb[1].body) != 1 or not (isinstance(lb[1].body[0], ast.Assign) and isinstance(lb[1].body[0].targets[0], ast.Name) and lb[1].body[0].targets[0].id == b):
+                raise Untranslatable("loop body shape")
+            cv = lb[0].targets[0].id
+            el = dict(env); el[iv] = iv; el[b] = b
+            val = self.monadic(lb[0].value, el)
+            el2 = dict(el); el2[cv] = cv
+            t = lb[1].test
+            if not (isinstance(t, ast.BoolOp) and isinstance(t.op, ast.Or) and len(t.values) == 2 and self.is_none_test(t.values[0], b)):
+                raise Untranslatable("loop update test")
+            upd = "if none_or %s (fun %s => %s) then Some %s else %s" % (b, b, self.cond(t.values[1], el2), self.tup(lb[1].body[0].value, el2), b)
+            loop = "py_for (Z.to_nat (%s - %s)) %s\n            (fun %s %s => do %s <- %s;\n                        Ok (%s)) None" % (hi, lo, lo, iv, b, cv, val, upd)
+            return "do %s <- %s;\n  %s" % (b, loop, self.block(rest[1:], e2, b))
+        if isinstance(s, ast.Assign) and len(s.targets) == 1 and isinstance(s.targets[0], ast.Name) and isinstance(best, tuple):
+            # m1 = <monadic>; if m1 < m[2]: m = T; return m
+            cv = s.targets[0].id
+            b = best[0]
+            if len(rest) != 2 or not isinstance(rest[0], ast.If) or rest[0].orelse or len(rest[0].body) != 1 or not isinstance(rest[1], ast.Return) \
+                    or not (isinstance(rest[1].value, ast.Name) and rest[1].value.id == b):
+                raise Untranslatable("tail shape")
+            e2 = dict(env); e2[cv] = cv
+            a = rest[0].body[0]
+            if not (isinstance(a, ast.Assign) and isinstance(a.targets[0], ast.Name) and a.targets[0].id == b):
+                raise Untranslatable("tail update")
+            return "do %s <- %s;\n  Ok (if %s then %s else %s)" % (cv, self.monadic(s.value, env), self.cond(rest[0].test, e2), self.tup(a.value, e2), env[b])
+        raise Untranslatable("statement " + ast.dump(s)[:100])
+
+
+def gen_memo(repo):
+    tree = ast.parse(open(os.path.join(repo, "checkpoint_schedules", "mixed.py")).read())
+    fns = {n.name: n for n in tree.body if isinstance(n, ast.FunctionDef)}
+    cs = fns.get("cache_step")
+    if cs is None or (ast.unparse(cs.args), "\n".join(ast.unparse(x) for x in _strip_doc(cs.body))) != CACHE_STEP:
+        raise Untranslatable("cache_step is not the clamping memoiser the model assumes")
+    f = fns.get("mixed_step_memoization")
+    if f is None or [a.arg for a in f.args.args] != ["n", "s"] or [ast.unparse(d) for d in f.decorator_list] != ["cache_step"]:
+        raise Untranslatable("@cache_step def mixed_step_memoization(n, s)")
+    # the iterator calls it by this name, and no other definition shadows it
+    if sum(1 for n in ast.walk(tree) if isinstance(n, (ast.FunctionDef, ast.Assign)) and ("mixed_step_memoization" in ([n.name] if isinstance(n, ast.FunctionDef) else [ast.unparse(t) for t in n.targets]))) != 1:
+        raise Untranslatable("mixed_step_memoization is rebound")
+    body = MemoTr("mixed_step_memoization", "memo_gen").block(_strip_doc(f.body), {"n": "n", "s": "s"})
+    return "\n".join(["(* GENERATED by harness/translate.py from checkpoint_schedules/mixed.py (mixed_step_memoization behind cache_step) -- do not edit *)",
+                      "From Coq Require Import ZArith List Bool.", "From CS Require Import Actions Mixed MemoGenSpec.", "Open Scope Z_scope.", "",
+                      "Fixpoint memo_gen (fuel : nat) (n s : Z) : res plan_t :=", "  match fuel with O => Err OutOfFuel | S f =>",
+                      "  let s := Z.min s (n - 1) in", "  " + body, "  end.",
+                      "Lemma memo_gen_is_shape : memo_gen = memo_shape.", "Proof. reflexivity. Qed.",
+                      "Lemma memo_gen_is_model : forall fuel n s, memo_gen fuel n s = memo fuel n s.", "Proof. rewrite memo_gen_is_shape. exact memo_shape_is_model. Qed.", ""]) + "\n"
+
+
+GENERATORS["MemoGen"] = gen_memo
+
 
 if __name__ == "__main__":
     repo = os.environ.get("VERIF_REPO", "/repo")
